@@ -171,7 +171,12 @@ XI = ("program progInc\n  include 'c09_decls.inc'\n  integer :: iVal\n  iVal = 1
 INC_FILES = {"c09_decls.inc": "integer :: from_project_a\n", "c09_body.inc": "iVal = 2\n"}
 W1 = "program progLit\n  character(len = 8) :: sTxt\n  sTxt = 'a b'\n  print '(a, i3)', 'n =', 1; sTxt = 'p  q'\nend program progLit\n"
 W2 = "program progLit\n  character(len = 8) :: sTxt\n  sTxt = 'a   b'\n  print '(a,  i3)', 'n  =', 1; sTxt = 'p q'\nend program progLit\n"
-SOURCES = dict(W1=W1, W2=W2, XI=XI, V1=V1, V2=V2, V3=V3, V4=V4, V5=V5_08, V6=V6, V7=V7, I1=I1, I2=I2, I3=I3, I4=I4, I5=I5, IK=IK, X1=X1, X2=X2, X3=X3_08, X4=X4)
+# specific intrinsic names (FLOAT, IFIX, ...) first, then the generic names with their optional KIND argument
+V9 = ("program progSpec\n  real :: xV\n  integer :: iV\n  double precision :: dV\n  xV = float(iV) + sngl(dV)\n  iV = ifix(xV) + idint(dV) + idnint(dV)\n"
+      "  dV = dint(dV) + dnint(dV) + dble(xV) + dsqrt(dV) + amax1(xV, 1.0)\nend program progSpec\n")
+X5 = ("program progGen\n  real :: xV\n  integer :: iV\n  xV = real(iV, 8) + aint(xV, 8) + anint(xV, kind = 8)\n  iV = int(xV, kind = 8) + nint(xV, 8) + max(1, 2, 3)\n"
+      "end program progGen\n")
+SOURCES = dict(V9=V9, X5=X5, W1=W1, W2=W2, XI=XI, V1=V1, V2=V2, V3=V3, V4=V4, V5=V5_08, V6=V6, V7=V7, I1=I1, I2=I2, I3=I3, I4=I4, I5=I5, IK=IK, X1=X1, X2=X2, X3=X3_08, X4=X4)
 
 
 class _Sources(dict):
@@ -355,6 +360,10 @@ def histories(ctx):
         for std in ("f2003", "f2008"):
             for x in ("XI", "XI@file", "X1@file"):
                 cases.append((h + (("create", std),), std, x))
+    for std in ("f2003", "f2008"):
+        for other in ("f2003", "f2008"):
+            cases.append(((("create", other), ("parse", "V9"), ("create", std)), std, "X5"))
+        cases.append(((("create", std), ("parse", "V9")), std, "X5"))
     # two programs that differ only in the number of blanks inside their character literals, in either order
     for a, b in (("W1", "W2"), ("W2", "W1")):
         for std in ("f2003", "f2008"):
